@@ -291,6 +291,13 @@ def gen_c04(tier, rng):
     for d in (bad1, bad2, bad3):
         for argv in ([], ["-x"], ["--no-x"], ["v"], ["--b", "1"], ["---"]):
             out.append(pcase("C04", d, {}, argv))
+    # unparsable environment words for a toggle (one of the documented conditions): documented words, case variants
+    # that are not documented, near misses
+    dt = D([O("t", "tog", "t", env="NV_T"), O("t", "rev", "r", env="NV_R", flag=True, dflt=1)], allowed=0)
+    for w in ["TRUE", "true", "True", "tRUE", "yES", "oFF", "nO", "WithOut", "ON", "oN", "maybe", "", " ", "1", "0", "2", "yes ", "Yes", "YES"]:
+        out.append(pcase("C04", dt, {"NV_T": w}, []))
+        out.append(pcase("C04", dt, {"NV_R": w}, []))
+        out.append(pcase("C04", dt, {"NV_T": w}, ["-t"]))
     # very long tokens (stack depth of the old regular expression)
     d = ts[0]
     for n in (1000, 20000, 200000) + ((400000,) if big else ()):
@@ -330,9 +337,9 @@ def gen_c11(tier, rng):
                                  for _ in range(rng.below(5)))))
     # occurrence patterns
     d = D([O("t", "aa", "a", flag=True, dflt=1, env="NV_A"), O("t", "bb", "b"), O("t", "cc", flag=True),
-           O("t", "dd", "d", dflt=2), O("o", "o", "o", flag=True)], allowed=None)
+           O("t", "dd", "d", dflt=2), O("o", "o", "o", flag=True), O("t", "ee", "e", flag=True, dflt=3)], allowed=None)
     al = ["--aa", "-a", "-aa", "-ab", "-ba", "-aba", "--no-aa", "--bb", "-b", "--no-bb", "--cc", "--no-cc", "-d", "-dad",
-          "p", "--o=1", "-abd", "--no-dd"]
+          "p", "--o=1", "-abd", "--no-dd", "-e", "--no-ee"]
     for argv in og.all_argv(al, 3):
         out.append(pcase("C11", d, {}, argv))
     for env in ({"NV_A": "on"}, {"NV_A": "off"}, {"NV_A": "what"}, {"NV_A": ""}):
@@ -367,6 +374,12 @@ def gen_c12(tier, rng):
             for pre in ([], ["v"], ["--opt", "x"], ["--tog"], ["--opt"]):
                 for tail in og.all_argv(after, 2):
                     out.append(pcase("C12", d, {}, pre + ["--"] + tail))
+    # tokens that hold a NUL byte (only the vector<user_input> entry point can carry them): verbatim like any other
+    dn = D([O("o", "opt", "o", flag=True), O("t", "tog", "t"), O("m", "mul", "m", flag=True)], allowed=None)
+    for argv in (["a\0b"], ["--", "-\0x"], ["--", "\0--tog"], ["x", "ab\0cd", "--", "\0"], ["--opt", "v\0w"], ["--opt=\0"],
+                 ["--mul", "\0", "--mul", "a\0"], ["\0"], ["--tog", "p\0", "--", "--\0"]):
+        out.append(pcase("C12", dn, {}, argv).replace("\tP\t", "\tPU\t", 1))
+        out.append(pcase("C12", dn, {}, [a.replace("\0", "N") for a in argv]).replace("\tP\t", "\tPU\t", 1))
     for n in range(0, 6):
         pos = ["p%d" % k for k in range(n)]
         for i in range(-n - 2, n + 2):
